@@ -107,11 +107,9 @@ Proof.
       - intros k o p H. apply Ho in H. destruct (A _ _ _ H) as (m' & h1 & h3 & E' & K & T & W).
         exists m', h1, (h3 ++ [MTimeout w]). repeat split; [now apply split_snoc|assumption..|].
         intros w' v H'. apply Hw in H'. eauto. }
-    destruct (wget w (m_wait s)) as [[k v]|] eqn:E; simpl; try solve [apply G; auto].
-    destruct (mget k (m_out s)) as [[o r]|] eqn:E2; simpl; apply G; simpl; auto.
+    destruct (wget w (m_wait s)) as [[k v]|] eqn:E; simpl; apply G; simpl; auto.
     + intros w' k' v' H. now apply (aget_adel_some _ nat_eqb_spec) in H.
     + intros k' o' p H. now apply (aget_adel_some _ mkey_eqb_spec) in H.
-    + intros w' k' v' H. now apply (aget_adel_some _ nat_eqb_spec) in H.
   - (* MCancel *)
     assert (G : forall s', (forall w' k v, wget w' (m_wait s') = Some (k, v) -> wget w' (m_wait s) = Some (k, v)) ->
                            (forall k o p, mget k (m_out s') = Some (o, Some p) -> mget k (m_out s) = Some (o, Some p)) ->
@@ -123,7 +121,8 @@ Proof.
         exists m', h1, (h3 ++ [MCancel w]). repeat split; [now apply split_snoc|assumption..|].
         intros w' v H'. apply Hw in H'. eauto. }
     destruct (wget w (m_wait s)) as [[k v]|] eqn:E; simpl; apply G; simpl; auto.
-    intros w' k' v' H. now apply (aget_adel_some _ nat_eqb_spec) in H.
+    + intros w' k' v' H. now apply (aget_adel_some _ nat_eqb_spec) in H.
+    + intros k' o' p H. now apply (aget_adel_some _ mkey_eqb_spec) in H.
 Qed.
 
 Lemma IA_reach h : IA h (final mstep m_init h).
@@ -148,8 +147,7 @@ Proof.
     destruct (A _ _ _ E2) as (m & h1 & h3 & Ep & K & T & W).
     destruct (W _ _ E) as (h0 & h2 & E1). subst h1.
     exists k, m, h0, h2, h3. rewrite <- app_assoc in Ep. auto.
-  - destruct (wget w' (m_wait s)) as [[k v]|]; simpl; [|intros []].
-    destruct (mget k (m_out s)) as [[o r]|]; simpl; intros [H0|[]]; discriminate.
+  - destruct (wget w' (m_wait s)) as [[k v]|]; simpl; [|intros []]. intros [H0|[]]; discriminate.
   - destruct (wget w' (m_wait s)) as [[k v]|]; simpl; [|intros []]. intros [H0|[]]; discriminate.
 Qed.
 
@@ -210,9 +208,9 @@ Proof.
         destruct (N.eq_dec q p); [contradiction|lia].
     + pose proof (held_adel_le p k (m_out s)). unfold cnt in *; simpl. lia.
   - destruct (wget w (m_wait s)) as [[k v]|] eqn:E; simpl; try (unfold cnt in *; simpl; lia).
-    destruct (mget k (m_out s)) as [[o' r]|] eqn:E2; simpl; [|unfold cnt in *; simpl; lia].
     pose proof (held_adel_le p k (m_out s)). unfold cnt in *; simpl. lia.
-  - destruct (wget w (m_wait s)) as [[k v]|] eqn:E; simpl; unfold cnt in *; simpl; lia.
+  - destruct (wget w (m_wait s)) as [[k v]|] eqn:E; simpl; try (unfold cnt in *; simpl; lia).
+    pose proof (held_adel_le p k (m_out s)). unfold cnt in *; simpl. lia.
 Qed.
 
 Global Opaque aset.
@@ -237,9 +235,6 @@ Qed.
 (* --------------------------------------------------------------------------
    T3-T6  under freshness of identifiers: exact characterisation of the map,
           hence of what happens to every message, timeout and wake-up.        *)
-Definition m_canc_only (w : nat) (o : list mout) : Prop :=
-  forall x, In x o -> m_mentions w x -> x = MCancelled w.
-
 Definition m_mentionsb (w : nat) (x : mout) : bool :=
   match x with
   | MDeliver w' _ | MTimeoutErr w' | MKeyErr w' | MCancelled w' => Nat.eqb w' w
@@ -307,14 +302,11 @@ Qed.
 Record I3 (h : list mev) (o : list mout) (s : mst) : Prop := {
   i_a1 : forall w k v, wget w (m_wait s) = Some (k, v) -> In (MReq w k) h /\ m_pending w o;
   i_a2 : forall w k, In (MReq w k) h -> m_pending w o -> exists v, wget w (m_wait s) = Some (k, v);
-  i_b : forall k ow r, mget k (m_out s) = Some (ow, r) -> In (MReq ow k) h /\ m_canc_only ow o;
-  i_c : forall w k, In (MReq w k) h -> m_canc_only w o -> exists r, mget k (m_out s) = Some (w, r);
+  i_b : forall k ow r, mget k (m_out s) = Some (ow, r) -> In (MReq ow k) h /\ m_pending ow o;
+  i_c : forall w k, In (MReq w k) h -> m_pending w o -> exists r, mget k (m_out s) = Some (w, r);
   i_d : forall w x, In x o -> m_mentions w x -> exists k, In (MReq w k) h;
   i_e : forall w, m_outcomes w o <= 1
 }.
-
-Lemma pending_canc w o : m_pending w o -> m_canc_only w o.
-Proof. intros H x Hx M. exfalso. now apply (H x). Qed.
 
 (* the history grows by an event that is not a request; nothing else changes *)
 Lemma I3_noop h o s e : (forall w k, e <> MReq w k) -> I3 h o s -> I3 (h ++ [e]) o s.
@@ -327,12 +319,12 @@ Proof.
   - intros w x Hx M. destruct (D _ _ Hx M) as [k Hk]. exists k. apply in_or_app; now left.
 Qed.
 
-(* request w ends with outcome x; its registration is removed (returned / timed out) *)
+(* request w ends with outcome x (returned / timed out / cancelled); its registration is removed *)
 Lemma I3_finish_del h o s w k v x :
-  m_fresh h -> I3 h o s -> wget w (m_wait s) = Some (k, v) -> m_mentions w x -> x <> MCancelled w ->
+  m_fresh h -> I3 h o s -> wget w (m_wait s) = Some (k, v) -> m_mentions w x ->
   I3 h (o ++ [x]) (MkM (adel mkey_eqb k (m_out s)) (adel Nat.eqb w (m_wait s))).
 Proof.
-  intros F [A1 A2 B C D E] Hw M Nc. destruct (A1 _ _ _ Hw) as [Rw Pw].
+  intros F [A1 A2 B C D E] Hw M. destruct (A1 _ _ _ Hw) as [Rw Pw].
   assert (Mw : forall w1, w1 <> w -> ~ m_mentions w1 x).
   { intros w1 N M1. destruct x; simpl in *; congruence. }
   split; simpl.
@@ -346,11 +338,11 @@ Proof.
     exists v1. now rewrite (aget_adel_neq _ nat_eqb_spec).
   - intros k1 ow r H. apply (aget_adel_some _ mkey_eqb_spec) in H as [N H].
     destruct (B _ _ _ H) as [R1 C1]. split; [assumption|].
-    intros y Hy My. apply in_app_or in Hy as [Hy|[<-|[]]]; [now apply C1|].
-    assert (ow = w) by (destruct (Nat.eq_dec ow w); [assumption|exfalso; now apply (Mw ow)]). subst ow.
-    exfalso. apply N. now apply (fresh_inj h F w k1 w k).
+    intros y Hy. apply in_app_or in Hy as [Hy|[<-|[]]]; [now apply C1|].
+    intro My. assert (ow = w) by (destruct (Nat.eq_dec ow w); [assumption|exfalso; now apply (Mw ow)]). subst ow.
+    apply N. now apply (fresh_inj h F w k1 w k).
   - intros w1 k1 R1 C1. assert (N : w1 <> w).
-    { intros ->. apply Nc. apply C1; [apply in_or_app; right; now left|assumption]. }
+    { intros ->. apply (C1 x); [apply in_or_app; right; now left|assumption]. }
     destruct (C w1 k1 R1) as [r H].
     { intros y Hy. apply C1. apply in_or_app; now left. }
     exists r. rewrite (aget_adel_neq _ mkey_eqb_spec); [assumption|].
@@ -361,30 +353,6 @@ Proof.
     apply m_mentionsb_spec in Eb.
     assert (w1 = w) by (destruct (Nat.eq_dec w1 w); [assumption|exfalso; now apply (Mw w1)]). subst.
     rewrite (pending_outcomes _ _ Pw). lia.
-Qed.
-
-(* request w is cancelled; its registration stays behind *)
-Lemma I3_finish_keep h o s w k v :
-  I3 h o s -> wget w (m_wait s) = Some (k, v) ->
-  I3 h (o ++ [MCancelled w]) (MkM (m_out s) (adel Nat.eqb w (m_wait s))).
-Proof.
-  intros [A1 A2 B C D E] Hw. destruct (A1 _ _ _ Hw) as [Rw Pw].
-  split; simpl.
-  - intros w1 k1 v1 H. apply (aget_adel_some _ nat_eqb_spec) in H as [N H].
-    destruct (A1 _ _ _ H) as [R1 P1]. split; [assumption|].
-    intros y Hy. apply in_app_or in Hy as [Hy|[<-|[]]]; [now apply P1|simpl; congruence].
-  - intros w1 k1 R1 P1. assert (N : w1 <> w).
-    { intros ->. apply (P1 (MCancelled w)); [apply in_or_app; right; now left|reflexivity]. }
-    destruct (A2 w1 k1 R1) as [v1 H1].
-    { intros y Hy. apply P1. apply in_or_app; now left. }
-    exists v1. now rewrite (aget_adel_neq _ nat_eqb_spec).
-  - intros k1 ow r H. destruct (B _ _ _ H) as [R1 C1]. split; [assumption|].
-    intros y Hy My. apply in_app_or in Hy as [Hy|[<-|[]]]; [now apply C1|]. simpl in My. now subst.
-  - intros w1 k1 R1 C1. apply (C w1 k1 R1). intros y Hy. apply C1. apply in_or_app; now left.
-  - intros w1 y Hy My. apply in_app_or in Hy as [Hy|[<-|[]]]; [now apply (D w1 y)|].
-    simpl in My. subst. eauto.
-  - intros w1. rewrite outcomes_snoc. simpl. destruct (Nat.eqb w w1) eqn:Eb; [|specialize (E w1); lia].
-    apply Nat.eqb_eq in Eb. subst. rewrite (pending_outcomes _ _ Pw). lia.
 Qed.
 
 Lemma I3_step h o s e :
@@ -405,7 +373,7 @@ Proof.
         rewrite (aget_aset_neq _ nat_eqb_spec) by assumption. now apply A2.
       * inversion H; subst. rewrite (aget_aset_eq _ nat_eqb_spec). eauto.
     + intros k1 ow r H. apply (aget_aset_some _ mkey_eqb_spec) in H as [[-> H]|[N H]].
-      * inversion H; subst. split; [apply in_or_app; right; now left|now apply pending_canc].
+      * inversion H; subst. split; [apply in_or_app; right; now left|assumption].
       * destruct (B _ _ _ H). split; [apply in_or_app; now left|assumption].
     + intros w1 k1 H C1. apply in_app_or in H as [H|[H|[]]].
       * assert (k1 <> k) by (intros ->; now apply (Nk w1)).
@@ -421,7 +389,6 @@ Proof.
       * intros k ow' r' H. apply (aget_aset_some _ mkey_eqb_spec) in H as [[-> H]|[N H]]; [|eauto].
         inversion H; subst. eauto.
       * intros w k R C1. destruct (C _ _ R C1) as [r' H].
-        destruct (mkey_eqb_spec k (mkey_of m)) as [_ Hk].
         destruct (mkey_eqb k (mkey_of m)) eqn:Ek.
         -- apply mkey_eqb_spec in Ek. subst k. rewrite (aget_aset_eq _ mkey_eqb_spec).
            rewrite Eo in H. inversion H; subst. eauto.
@@ -433,7 +400,7 @@ Proof.
         intros x Hx. apply in_app_or in Hx as [Hx|[<-|[]]]; [now apply P|intros []].
       * intros w k R P. apply (A2 w k R). intros x Hx. apply P. apply in_or_app; now left.
       * intros k ow r H. destruct (B _ _ _ H) as [R C1]. split; [assumption|].
-        intros x Hx M. apply in_app_or in Hx as [Hx|[<-|[]]]; [now apply C1|destruct M].
+        intros x Hx. apply in_app_or in Hx as [Hx|[<-|[]]]; [now apply C1|intros []].
       * intros w k R C1. apply (C w k R). intros x Hx. apply C1. apply in_or_app; now left.
       * intros w x Hx M. apply in_app_or in Hx as [Hx|[<-|[]]]; [now apply (D w x)|destruct M].
       * intros w. rewrite outcomes_snoc. simpl. specialize (E w). lia.
@@ -441,20 +408,19 @@ Proof.
     destruct (wget w (m_wait s)) as [[k [|v]]|] eqn:Ew; simpl;
       try (rewrite app_nil_r; apply I3_noop; [intros; discriminate|assumption]).
     destruct (i_a1 _ _ _ I _ _ _ Ew) as [R P].
-    destruct (i_c _ _ _ I _ _ R (pending_canc _ _ P)) as [r Er]. rewrite Er. simpl.
+    destruct (i_c _ _ _ I _ _ R P) as [r Er]. rewrite Er. simpl.
     apply I3_noop; [intros; discriminate|].
-    eapply I3_finish_del; eauto; [reflexivity|discriminate].
+    eapply I3_finish_del; eauto. reflexivity.
   - (* MTimeout *)
     destruct (wget w (m_wait s)) as [[k v]|] eqn:Ew; simpl;
       try (rewrite app_nil_r; apply I3_noop; [intros; discriminate|assumption]).
-    destruct (i_a1 _ _ _ I _ _ _ Ew) as [R P].
-    destruct (i_c _ _ _ I _ _ R (pending_canc _ _ P)) as [r Er]. rewrite Er. simpl.
     apply I3_noop; [intros; discriminate|].
-    eapply I3_finish_del; eauto; [reflexivity|discriminate].
+    eapply I3_finish_del; eauto. reflexivity.
   - (* MCancel *)
     destruct (wget w (m_wait s)) as [[k v]|] eqn:Ew; simpl;
       try (rewrite app_nil_r; apply I3_noop; [intros; discriminate|assumption]).
-    apply I3_noop; [intros; discriminate|]. eapply I3_finish_keep; eauto.
+    apply I3_noop; [intros; discriminate|].
+    eapply I3_finish_del; eauto. reflexivity.
 Qed.
 
 Lemma I3_reach h : m_fresh h -> I3 h (outs mstep m_init h) (final mstep m_init h).
@@ -504,9 +470,9 @@ Proof.
     destruct (mget k' (m_out s)) as [[o' r']|]; simpl; eauto.
     intro H. apply (aget_adel_some _ mkey_eqb_spec) in H as [_ H]. eauto.
   - destruct (wget w (m_wait s)) as [[k' v]|]; simpl; eauto.
-    destruct (mget k' (m_out s)) as [[o' r']|]; simpl; eauto.
     intro H. apply (aget_adel_some _ mkey_eqb_spec) in H as [_ H]. eauto.
   - destruct (wget w (m_wait s)) as [[k' v]|]; simpl; eauto.
+    intro H. apply (aget_adel_some _ mkey_eqb_spec) in H as [_ H]. eauto.
 Qed.
 
 Lemma never_requested_listen pre m :
@@ -519,21 +485,32 @@ Proof.
 Qed.
 
 Lemma ended_not_live pre w k x : m_fresh pre ->
-  In (MReq w k) pre -> In x (outs mstep m_init pre) -> m_mentions w x -> x <> MCancelled w ->
+  In (MReq w k) pre -> In x (outs mstep m_init pre) -> m_mentions w x ->
   ~ m_live pre (outs mstep m_init pre) k.
 Proof.
-  intros F R Hx M Nc (w' & R' & C).
+  intros F R Hx M (w' & R' & C).
   assert (w' = w) by (now apply (fresh_inj pre F w' k w k)). subst w'.
-  apply Nc. now apply C.
+  now apply (C x).
+Qed.
+
+(* after request w has ended - returned, failed, timed out or been cancelled - a message under its
+   identifier goes to the listeners *)
+Lemma ended_isolated pre w k x m : m_fresh pre ->
+  In (MReq w k) pre -> In x (outs mstep m_init pre) -> m_mentions w x -> mkey_of m = k ->
+  snd (mstep (final mstep m_init pre) (MMsg m)) = [MListen (m_type m) (m_tag m)].
+Proof.
+  intros F R Hx M K. apply (unsolicited_iff pre m F). rewrite K. eapply ended_not_live; eauto.
 Qed.
 
 Lemma timeout_isolated pre w k m : m_fresh pre ->
   In (MReq w k) pre -> In (MTimeoutErr w) (outs mstep m_init pre) -> mkey_of m = k ->
   snd (mstep (final mstep m_init pre) (MMsg m)) = [MListen (m_type m) (m_tag m)].
-Proof.
-  intros F R T K. apply (unsolicited_iff pre m F). rewrite K.
-  eapply ended_not_live; eauto; [reflexivity|discriminate].
-Qed.
+Proof. intros F R T K. eapply ended_isolated; eauto. reflexivity. Qed.
+
+Lemma cancel_isolated pre w k m : m_fresh pre ->
+  In (MReq w k) pre -> In (MCancelled w) (outs mstep m_init pre) -> mkey_of m = k ->
+  snd (mstep (final mstep m_init pre) (MMsg m)) = [MListen (m_type m) (m_tag m)].
+Proof. intros F R T K. eapply ended_isolated; eauto. reflexivity. Qed.
 
 Lemma outcome_once h w : m_fresh h -> m_outcomes w (outs mstep m_init h) <= 1.
 Proof. intro F. apply (i_e _ _ _ (I3_reach h F)). Qed.
@@ -544,8 +521,7 @@ Lemma timeout_reported pre w k : m_fresh pre ->
 Proof.
   intros F R P. pose proof (I3_reach pre F) as I.
   destruct (i_a2 _ _ _ I _ _ R P) as [v Hv].
-  destruct (i_c _ _ _ I _ _ R (pending_canc _ _ P)) as [r Hr].
-  simpl. rewrite Hv, Hr. reflexivity.
+  simpl. rewrite Hv. reflexivity.
 Qed.
 
 Lemma answer_delivered pre w k m : m_fresh pre ->
@@ -556,7 +532,7 @@ Lemma answer_delivered pre w k m : m_fresh pre ->
 Proof.
   intros F R P K. pose proof (I3_reach pre F) as I.
   destruct (i_a2 _ _ _ I _ _ R P) as [v Hv].
-  destruct (i_c _ _ _ I _ _ R (pending_canc _ _ P)) as [r Hr].
+  destruct (i_c _ _ _ I _ _ R P) as [r Hr].
   simpl. rewrite K, Hr. simpl. split; [reflexivity|].
   rewrite (m_release_self _ _ _ _ Hv). rewrite (aget_aset_eq _ mkey_eqb_spec). reflexivity.
 Qed.
